@@ -28,8 +28,9 @@ type kindInfo struct {
 	genOnSpec bool
 }
 
-// The kinds registered by registerControllers (CustomResourceDefinition and NginxGateway are outside
-// the generated histories; see notes/C01.md).
+// The kinds registered by registerControllers (CustomResourceDefinition is outside the generated histories; see
+// notes/C01.md). NginxGateway is registered with a controller but NOT with the change processor: the handler's
+// objectFilters keep its events away from CaptureUpsertChange/CaptureDeleteChange.
 var kindTable = []kindInfo{
 	{"GatewayClass", func() client.Object { return &gatewayv1.GatewayClass{} }, true},
 	{"Gateway", func() client.Object { return &gatewayv1.Gateway{} }, true},
@@ -48,7 +49,11 @@ var kindTable = []kindInfo{
 	{"ConfigMap", func() client.Object { return &apiv1.ConfigMap{} }, false},
 	{"TLSRoute", func() client.Object { return &gatewayv1alpha2.TLSRoute{} }, true},
 	{"SnippetsFilter", func() client.Object { return &ngfAPIv1alpha1.SnippetsFilter{} }, true},
+	{"NginxGateway", func() client.Object { return &ngfAPIv1alpha1.NginxGateway{} }, true},
 }
+
+// handlerOnlyKinds: kinds with a controller but without an entry in NewChangeProcessorImpl.
+var handlerOnlyKinds = map[string]bool{"NginxGateway": true}
 
 var kindByName = func() map[string]kindInfo {
 	m := map[string]kindInfo{}
